@@ -7,6 +7,7 @@ from .c02 import weights
 from .c14 import weight as lorch_weight
 
 LEAN = "PystogVerif.Props.C07"
+LEAN_EXTRA = ["PystogVerif.Props.C07Named"]
 ENTRIES = ["Transformer.fourier_transform", "Transformer.F_to_G", "Transformer.S_to_g", "Transformer.g_to_S", "Transformer.GK_to_DCS"]
 RULE = ("random strictly increasing grid (25% uniform), data, non-negative uncertainties, output grid, Lorch on/off, optional "
         "window; non-trivial = >= 3 in-window points and non-zero uncertainties")
